@@ -83,6 +83,37 @@ func c05R1(p *Prog, r *Report) {
 			}
 		})
 	}
+	// a struct converted from another struct type of the same shape (T(s)): every field of T is
+	// assigned when the corresponding field of the source type is
+	for round := 0; round < 2; round++ {
+		for _, fn := range p.LibFuncs() {
+			Instrs(fn, func(in ssa.Instruction) {
+				var from, to types.Type
+				switch x := in.(type) {
+				case *ssa.ChangeType:
+					from, to = x.X.Type(), x.Type()
+				case *ssa.Convert:
+					from, to = x.X.Type(), x.Type()
+				default:
+					return
+				}
+				fs, ok1 := from.Underlying().(*types.Struct)
+				ts, ok2 := to.Underlying().(*types.Struct)
+				if !ok1 || !ok2 || fs.NumFields() != ts.NumFields() || types.Identical(from, to) {
+					return
+				}
+				for i := 0; i < ts.NumFields(); i++ {
+					kf := FieldKey{ownerName(from), fs.Field(i).Name()}
+					kt := FieldKey{ownerName(to), ts.Field(i).Name()}
+					if _, had := assigned[kf]; had {
+						if _, had2 := assigned[kt]; !had2 {
+							assigned[kt] = FuncName(fn) + " (converted from " + ownerName(from) + ")"
+						}
+					}
+				}
+			})
+		}
+	}
 	writers := []struct{ pkg, typ string }{{"ljh", "Writer"}, {"ljh", "Writer3"}, {"off", "Writer"}}
 	for _, w := range writers {
 		wh := p.Func(w.pkg, w.typ, "WriteHeader")
@@ -1183,7 +1214,26 @@ func c05R3(p *Prog, r *Report) {
 		written := false
 		if final != nil {
 			for _, ref := range *final.Referrers() {
-				if c, ok := ref.(*ssa.Call); ok && strings.HasSuffix(CalleeName(&c.Call), "asyncbufio.Writer).Write") {
+				viaWrapper := false
+				if c, ok := ref.(*ssa.Call); ok && c.Call.StaticCallee() != nil && isModuleFn(c.Call.StaticCallee()) && c.Call.StaticCallee().Blocks != nil && len(c.Call.StaticCallee().Params) == len(c.Call.Args) {
+					// a helper that hands its parameter to the file writer
+					h := c.Call.StaticCallee()
+					for k, a := range c.Call.Args {
+						if a != final {
+							continue
+						}
+						Instrs(h, func(y ssa.Instruction) {
+							if c2, ok := y.(*ssa.Call); ok && strings.HasSuffix(CalleeName(&c2.Call), "asyncbufio.Writer).Write") {
+								for _, a2 := range c2.Call.Args {
+									if a2 == ssa.Value(h.Params[k]) {
+										viaWrapper = true
+									}
+								}
+							}
+						})
+					}
+				}
+				if c, ok := ref.(*ssa.Call); ok && (strings.HasSuffix(CalleeName(&c.Call), "asyncbufio.Writer).Write") || viaWrapper) {
 					written = true
 					if L.host == fn {
 						for _, s := range slots {
